@@ -49,6 +49,13 @@ type c20In struct {
 	// initiator's key, no handshake on it) is closed at the responder while the responder is held
 	// and before the streams are opened: 1 = opened while held, 2 = opened before Connect
 	SecondConn int `json:"second_conn"`
+	// class 0: an earlier handshake under the initiator's peer id, finished before this one:
+	// 1 = refused: a service with the initiator's key whose registry does not know the (provider)
+	//     responder gives up after reading the responder's request, the responder's final read
+	//     fails (no block on either side that outlives that service);
+	// 2 = accepted: the old incarnation stays connected and registered, the new one connects,
+	//     and while the responder is held the old one goes away (its registry entry is removed)
+	Prior int `json:"prior"`
 }
 
 type c20Stream struct {
@@ -68,6 +75,8 @@ type c20Obs struct {
 	RegAtGate   bool        `json:"reg_at_gate"`  // diagnostic: responder had registered the peer while held at the gate
 	OtherClosed bool        `json:"other_closed"` // the second connection was seen and seen closed by the responder
 	OtherErr    string      `json:"other_err,omitempty"`
+	PriorOK     bool        `json:"prior_ok"` // the earlier Connect reported success
+	PriorErr    string      `json:"prior_err,omitempty"`
 }
 
 // c20KS is the responder's key signer: GetAddress counts, optionally sleeps, then waits for the gate.
@@ -76,6 +85,7 @@ type c20KS struct {
 	addr  common.Address
 	calls atomic.Int64
 	delay time.Duration
+	mu    sync.Mutex
 	gate  chan struct{}
 }
 
@@ -84,8 +94,33 @@ func (k *c20KS) GetAddress() common.Address {
 	if k.delay > 0 {
 		time.Sleep(k.delay)
 	}
-	<-k.gate
+	k.mu.Lock()
+	g := k.gate
+	k.mu.Unlock()
+	<-g
 	return k.addr
+}
+
+// open releases everything waiting at the gate and lets later calls pass.
+func (k *c20KS) open() {
+	k.mu.Lock()
+	defer k.mu.Unlock()
+	select {
+	case <-k.gate:
+	default:
+		close(k.gate)
+	}
+}
+
+// arm closes the gate for the calls to come.
+func (k *c20KS) arm() {
+	k.mu.Lock()
+	defer k.mu.Unlock()
+	select {
+	case <-k.gate:
+		k.gate = make(chan struct{})
+	default:
+	}
 }
 
 type c20Reg struct{ ans bool }
@@ -159,16 +194,10 @@ func c20RunCase(t *testing.T, e *vfEnv, class string, in c20In, keyRng *rand.Ran
 	if in.Klass == 2 {
 		rks.delay = time.Duration(in.DelayMs) * time.Millisecond
 	}
-	if in.Klass != 0 {
-		close(rks.gate)
+	if in.Klass != 0 || in.Prior != 0 {
+		rks.open()
 	}
-	gateOpen := in.Klass != 0
-	openGate := func() {
-		if !gateOpen {
-			gateOpen = true
-			close(rks.gate)
-		}
-	}
+	openGate := rks.open
 	logc := &c20LogCounter{}
 	rsp, err := New(&Options{
 		KeySigner:  rks,
@@ -362,7 +391,56 @@ func c20RunCase(t *testing.T, e *vfEnv, class string, in c20In, keyRng *rand.Ran
 		}
 	}
 
+	// ---- an earlier handshake under the same peer id ---------------------------------------
+	olds := make([]*Service, in.Inits)
+	defer func() {
+		for _, o := range olds {
+			if o != nil {
+				_ = o.Close()
+			}
+		}
+	}()
+	if in.Klass == 0 && in.Prior != 0 {
+		for j := range inis {
+			o, err := New(&Options{
+				KeySigner:  mockkeysigner.NewMockKeySigner(iKeys[j], crypto.PubkeyToAddress(iKeys[j].PublicKey)),
+				Secret:     "c20",
+				ListenPort: 0,
+				ListenAddr: "127.0.0.1",
+				PeerType:   p2p.PeerType(in.IType),
+				Register:   &c20Reg{ans: in.Prior == 2},
+				MetricsReg: prometheus.NewRegistry(),
+				Logger:     slog.New(slog.NewTextHandler(io.Discard, &slog.HandlerOptions{Level: slog.LevelError})),
+			})
+			if err != nil {
+				t.Errorf("c20: earlier incarnation: %v", err)
+				return
+			}
+			olds[j] = o
+			_, err = o.Connect(ctx, rInfo)
+			obs[j].PriorOK = err == nil
+			if err != nil {
+				obs[j].PriorErr = err.Error()
+			}
+			if in.Prior == 1 {
+				// both sides close the peer on a failed handshake; the responder's handler returns
+				// right after closing it
+				c20Until(limit/4, func() bool { return connsAtResponder(j) == 0 })
+				time.Sleep(100 * time.Millisecond * slow)
+				_ = o.Close()
+				olds[j] = nil
+			} else {
+				c20Until(limit/4, func() bool {
+					_, found := rsp.peers.getPeer(inis[j].host.ID())
+					return found
+				})
+			}
+		}
+		rks.arm()
+	}
+
 	// ---- connect (all initiators concurrently) -------------------------------------------
+	gaStart := rks.calls.Load()
 	var cwg sync.WaitGroup
 	for j := range inis {
 		cwg.Add(1)
@@ -399,7 +477,22 @@ func c20RunCase(t *testing.T, e *vfEnv, class string, in c20In, keyRng *rand.Ran
 	case 0:
 		// every successful Connect means the responder reads the final message next and then
 		// calls GetAddress: wait until it is held there (positive synchronisation)
-		c20Until(limit/2, func() bool { return int(rks.calls.Load()-gaBase) >= okCount })
+		c20Until(limit/2, func() bool { return int(rks.calls.Load()-gaStart) >= okCount })
+		if in.Prior == 2 {
+			// the old incarnation goes away while the responder is held: its connection was the
+			// only one the registry tracks for the peer, so the entry is removed (waited for)
+			for j := range inis {
+				if olds[j] != nil {
+					_ = olds[j].Close()
+					olds[j] = nil
+					j := j
+					c20Until(limit/4, func() bool {
+						_, found := rsp.peers.getPeer(inis[j].host.ID())
+						return !found
+					})
+				}
+			}
+		}
 		for j := range inis {
 			if conn[j].err == nil {
 				if _, found := rsp.peers.getPeer(inis[j].host.ID()); found {
@@ -456,10 +549,15 @@ func c20RunCase(t *testing.T, e *vfEnv, class string, in c20In, keyRng *rand.Ran
 			}
 		}
 	}
+	// every stream has been opened and nothing holds the responder back any more: a stream that
+	// has not ended within the bound is observed as pending
+	c20Until(time.Duration(in.DelayMs)*time.Millisecond+5*time.Second*slow,
+		func() bool { return streamsDone.Load() >= totalStreams })
+	scancel()
 	wg.Wait()
 	// the responder's side of every successful handshake has passed GetAddress by now; wait
 	// for it positively before reading the counter
-	c20Until(limit/4, func() bool { return int(rks.calls.Load()-gaBase) >= okCount })
+	c20Until(limit/4, func() bool { return int(rks.calls.Load()-gaStart) >= okCount })
 	for j := range inis {
 		if conn[j].err == nil {
 			j := j
@@ -513,6 +611,7 @@ func c20RunCase(t *testing.T, e *vfEnv, class string, in c20In, keyRng *rand.Ran
 				"i_addr", coqBytes(iAddr), "i_type", coqN(uint64(in.IType)), "i_staked", coqBool(in.IStaked),
 				"r_addr", coqBytes(rAddr.Bytes()), "r_type", coqN(uint64(in.RType)), "r_staked", coqBool(in.RStaked),
 				"r_ks_ok", coqBool(in.RKsOk),
+				"prior", coqN(uint64(in.Prior)), "prior_ok", coqBool(o.PriorOK),
 				"conn_close_other", coqBool(o.OtherClosed),
 				"connect_ok", coqBool(o.ConnectOK),
 				"ret_addr", coqBytes(retAddr), "ret_type", coqN(uint64(retType)),
@@ -576,6 +675,23 @@ func TestVerifC20(t *testing.T) {
 		secondConn = append(secondConn,
 			mk(func(in *c20In) { in.SecondConn = 1; in.Inits = 2; in.Streams = 2; in.HoldMs = 1500 }),
 			mk(func(in *c20In) { in.SecondConn = 2; in.RType = bidder; in.HoldMs = 4000 }))
+	}
+	// an earlier refused / accepted handshake under the same peer id (also run concurrently)
+	earlier := []struct {
+		class string
+		in    c20In
+	}{
+		{"retry-after-failed-handshake", mk(func(in *c20In) { in.Prior = 1 })},
+		{"retry-after-failed-handshake", mk(func(in *c20In) { in.Prior = 1; in.Streams = 2; in.IType = provider })},
+		{"reconnect-old-closes", mk(func(in *c20In) { in.Prior = 2 })},
+		{"reconnect-old-closes", mk(func(in *c20In) { in.Prior = 2; in.Streams = 2; in.IType = provider; in.HoldMs = 800 })},
+	}
+	for i, c := range earlier {
+		lh.Add(1)
+		go func(i int, class string, in c20In) {
+			defer lh.Done()
+			c20RunCase(t, e, class, in, rand.New(rand.NewSource(e.Seed*32452843+int64(i)+1)))
+		}(i, c.class, c.in)
 	}
 	for i, in := range secondConn {
 		lh.Add(1)
